@@ -316,11 +316,26 @@ impl<K: CacheKey + 'static> DiskCache<K> {
                 eprintln!("Failed to create cache directory {}: {e}", path.display());
             }
 
-            path.push(key_str);
+            path.push(Self::confined_relative_path(key_str));
             path
         } else {
-            self.config.cache_dir.join(key_str)
+            self.config
+                .cache_dir
+                .join(Self::confined_relative_path(key_str))
         }
+    }
+
+    /// Relative path for a key string: only normal components are kept, so a key
+    /// containing `..`, `.` or a leading `/` cannot address a file outside the
+    /// cache directory (`PathBuf::join` with an absolute path would replace it).
+    fn confined_relative_path(key_str: &str) -> PathBuf {
+        Path::new(key_str)
+            .components()
+            .filter_map(|c| match c {
+                std::path::Component::Normal(part) => Some(part),
+                _ => None,
+            })
+            .collect()
     }
 
     /// Write data to disk file atomically
